@@ -2,6 +2,8 @@ package rules
 
 import (
 	"fmt"
+	"go/token"
+	"go/types"
 	"sort"
 	"strings"
 
@@ -242,4 +244,146 @@ func runR177(c *core.Ctx) {
 	sort.Strings(desc)
 	c.Check(len(kinds) == 1, "R17.7", "inmem#one-clock", uses[0].pos, fmt.Sprintf("%d reads of one clock (%s)", len(uses), desc[0][:strings.Index(desc[0], ":")]),
 		"the in-memory backend reads more than one clock - "+strings.Join(desc, "; ")+": deadlines are computed on one time scale and tested on another, so expired entries keep being served (or live ones are dropped)")
+}
+
+// runR178 (R17.8): the test "has this entry's deadline passed" orders two 32-bit second counts whose distance may be
+// anything below 2^32 (absolute expiry times are taken as the client sent them). It therefore compares the two values
+// themselves, in an unsigned type or in 64 bits - or a difference formed in 64 bits. A difference formed in 32 bits and
+// read as a signed number (the "wrap-safe" idiom of sequence numbers), or operands narrowed to a signed 32-bit type,
+// order deadlines more than 2^31 s ahead *before* now: such entries are treated as expired the moment they are stored.
+func runR178(c *core.Ctx) {
+	c.Rule("R17.8", "the expiry test compares the stored deadline and the clock value themselves (unsigned, or in 64 bits): no signed 32-bit difference or narrowing that would order a deadline more than 2^31 s ahead before now", 1)
+	word := int64(8)
+	if strings.Contains(c.Config, "386") {
+		word = 4
+	}
+	size := func(t types.Type) (int64, bool) { // size in bytes, signed
+		b, ok := t.Underlying().(*types.Basic)
+		if !ok {
+			return 0, false
+		}
+		switch b.Kind() {
+		case types.Int8, types.Uint8:
+			return 1, b.Kind() == types.Int8
+		case types.Int16, types.Uint16:
+			return 2, b.Kind() == types.Int16
+		case types.Int32, types.Uint32:
+			return 4, b.Kind() == types.Int32
+		case types.Int64, types.Uint64:
+			return 8, b.Kind() == types.Int64
+		case types.Int, types.Uint, types.Uintptr:
+			return word, b.Kind() == types.Int
+		}
+		return 0, false
+	}
+	// does v derive from a clock read / from a struct field, through conversions and arithmetic?
+	var derives func(v ssa.Value, depth int) (clock, field bool)
+	derives = func(v ssa.Value, depth int) (bool, bool) {
+		if depth > 8 {
+			return false, false
+		}
+		switch x := v.(type) {
+		case *ssa.Convert:
+			return derives(x.X, depth+1)
+		case *ssa.ChangeType:
+			return derives(x.X, depth+1)
+		case *ssa.BinOp:
+			c1, f1 := derives(x.X, depth+1)
+			c2, f2 := derives(x.Y, depth+1)
+			return c1 || c2, f1 || f2
+		case *ssa.Call:
+			name := ssax.CalleeName(&x.Call)
+			if name == "time.Now" || strings.HasSuffix(name, "/timer.Now") {
+				return true, false
+			}
+			if strings.HasPrefix(name, "(time.Time).Unix") && len(x.Call.Args) == 1 {
+				return derives(x.Call.Args[0], depth+1)
+			}
+		case *ssa.UnOp:
+			if x.Op == token.MUL {
+				if _, ok := x.X.(*ssa.FieldAddr); ok {
+					return false, true
+				}
+			}
+		case *ssa.Field:
+			return false, true
+		case *ssa.Phi:
+			var cc, ff bool
+			for _, e := range x.Edges {
+				c1, f1 := derives(e, depth+1)
+				cc, ff = cc || c1, ff || f1
+			}
+			return cc, ff
+		}
+		return false, false
+	}
+	// problems inside one operand of the comparison
+	var problems func(v ssa.Value, depth int) []string
+	problems = func(v ssa.Value, depth int) []string {
+		if depth > 8 {
+			return nil
+		}
+		switch x := v.(type) {
+		case *ssa.Convert:
+			out := problems(x.X, depth+1)
+			cl, fl := derives(x.X, 0)
+			if sz, signed := size(x.Type()); (cl || fl) && signed && sz <= 4 {
+				out = append(out, fmt.Sprintf("a second count is narrowed to the signed %d-bit type %s", sz*8, x.Type()))
+			}
+			return out
+		case *ssa.BinOp:
+			out := append(problems(x.X, depth+1), problems(x.Y, depth+1)...)
+			if x.Op == token.SUB {
+				c1, f1 := derives(x.X, 0)
+				c2, f2 := derives(x.Y, 0)
+				if (c1 && f2) || (f1 && c2) {
+					if sz, _ := size(x.Type()); sz <= 4 {
+						out = append(out, fmt.Sprintf("the difference of deadline and clock is formed in %d bits (%s)", sz*8, x.Type()))
+					}
+				}
+			}
+			return out
+		}
+		return nil
+	}
+	n := 0
+	for _, fn := range pkgFuncs(c, "handlers/inmem") {
+		counts := map[string]int{}
+		ssax.Instrs(fn, func(ins ssa.Instruction) {
+			bo, ok := ins.(*ssa.BinOp)
+			if !ok {
+				return
+			}
+			switch bo.Op {
+			case token.LSS, token.LEQ, token.GTR, token.GEQ:
+			default:
+				return
+			}
+			c1, f1 := derives(bo.X, 0)
+			c2, f2 := derives(bo.Y, 0)
+			if !(c1 || c2) || !(f1 || f2) {
+				return
+			}
+			n++
+			key := ordinalKey(counts, core.FuncName(fn)+"#deadline-test")
+			var bad []string
+			bad = append(bad, problems(bo.X, 0)...)
+			bad = append(bad, problems(bo.Y, 0)...)
+			// a difference compared with a constant: the sign of a narrow difference decides
+			mixedX := c1 && f1
+			mixedY := c2 && f2
+			if (mixedX || mixedY) && len(bad) == 0 {
+				// a 64-bit difference is exact
+			}
+			// the comparison itself must not be signed on 32 bits
+			if sz, signed := size(bo.X.Type()); signed && sz <= 4 {
+				bad = append(bad, fmt.Sprintf("the comparison is made in the signed %d-bit type %s", sz*8, bo.X.Type()))
+			}
+			c.Check(len(bad) == 0, "R17.8", key, c.P.Pos(bo.Pos()), "deadline and clock are compared as they are",
+				strings.Join(uniq(bad), "; ")+": a deadline more than 2^31 s ahead of now is ordered before now, the entry counts as expired at once")
+		})
+	}
+	if n == 0 {
+		c.Undecided("R17.8", "inmem#deadline-test", "-", "no comparison of a stored field with the clock found")
+	}
 }
